@@ -593,7 +593,7 @@ pub fn run(args: &Args) -> ! {
         let bytes: Vec<u8> = w.iter().flat_map(|&i| BYTE_FRAGS[i].iter().copied()).collect();
         let m = Source::bytes(".emmyrc.json", bytes);
         let invalid = is_invalid_config_text(&m);
-        if w.len() == 2 {
+        if w.len() == 2 && (w[0] * BYTE_FRAGS.len() + w[1]) % 131 == 7 {
             st.sample(|| json!({"phase": "B: malformed bytes", "file": Case::of(vec![m.clone()]).to_json()}));
         }
         for layout in 0..3 {
@@ -651,7 +651,7 @@ pub fn run(args: &Args) -> ! {
             // one file with two distinct keys (unordered: e1 < e2 by key)
             if e1 / nv < e2 / nv {
                 let t = obj_of(keys2, nv, &[e1, e2]);
-                if i % 997 == 3 {
+                if i % 5003 == 3 {
                     st.sample(|| json!({"phase": "A: one file, two entries", "text": t}));
                 }
                 explore(&Case::one(t), st, "A2", &col);
@@ -694,7 +694,7 @@ pub fn run(args: &Args) -> ! {
                 continue;
             }
             let text = format!("{{{}:{}}}", Value::String(key.to_string()), shape.replace('%', &js));
-            if w.len() == 2 && *key == "workspace.library" {
+            if w.len() == 2 && si == 0 && (w[0] * PATH_FRAGS.len() + w[1]) % 97 == 5 {
                 st.sample(|| json!({"phase": "D: path strings", "text": text}));
             }
             explore(&Case::one(text), st, "D", &col);
@@ -768,7 +768,7 @@ pub fn run(args: &Args) -> ! {
                     col.offer(&format!("{cl}|C"), &c, rank(&c));
                 }
             }
-            if k == 3 && i % 500 == 17 {
+            if k == 3 && i % 900 == 17 {
                 st.sample(|| json!({"phase": "C: .emmyrc.lua", "text": texts[*i], "outcome": cl}));
             }
         }
